@@ -88,16 +88,27 @@ func (r *Result) Eval(key string, nontrivial bool, sample interface{}) {
 		r.Samples = append(r.Samples, sample)
 	}
 }
+// At most 5 witnesses are kept per class (and 60 in all): a class that fires often — a listed finding, say — must
+// not use up the room and hide a violation of another class behind it.
+func classCount(vs []Violation, class string) int {
+	n := 0
+	for _, v := range vs {
+		if v.Class == class {
+			n++
+		}
+	}
+	return n
+}
 func (r *Result) Disagree(v Violation) {
 	r.mu.Lock()
-	if len(r.Disagreements) < 20 {
+	if classCount(r.Disagreements, v.Class) < 5 && len(r.Disagreements) < 60 {
 		r.Disagreements = append(r.Disagreements, v)
 	}
 	r.mu.Unlock()
 }
 func (r *Result) Violate(v Violation) {
 	r.mu.Lock()
-	if len(r.Violations) < 20 {
+	if classCount(r.Violations, v.Class) < 5 && len(r.Violations) < 60 {
 		r.Violations = append(r.Violations, v)
 	}
 	r.mu.Unlock()
@@ -245,6 +256,9 @@ func RunWorkflow(d *Desc, o RunOpts) *RunRes {
 	go func() { done <- cmd.Wait() }()
 	select {
 	case err = <-done:
+		if ctx.Err() != nil {
+			res.Exit = -2 // exec.CommandContext killed it at the deadline and Wait returned before this select looked
+		}
 	case <-ctx.Done():
 		syscall.Kill(-cmd.Process.Pid, syscall.SIGKILL)
 		err = <-done
